@@ -598,6 +598,33 @@ func genWidthCompensated(rng *rand.Rand, n int) (cases []string) {
 	return cases
 }
 
+// runes that case-CONVERT into each other (ToUpper / ToLower) but are NOT in one simple-fold
+// orbit: U+0130 and U+0131 fold only to themselves, although ToLower(U+0130) = 'i' and
+// ToUpper(U+0131) = 'I'.  A fold implemented as ToLower(ToUpper(r)) merges them with i / I.
+// The pairs are placed in windows whose byte length equals the needle's (widths compensated with
+// s / U+017F and k / U+212A pairs), where the reference says "no match".
+func genConfusable(rng *rand.Rand, n int) (cases []string) {
+	conf := []rune{'i', 'I', 0x130, 0x131}
+	for i := 0; i < n; i++ {
+		a, b := conf[rng.IntN(4)], conf[rng.IntN(4)]
+		rest := pick(rng, "stanbul", "s", "", "k", "x", "ss")
+		needle := string(a) + rest
+		win := string(b) + string(variantOf(rng, []rune(rest)))
+		// compensate the width difference of a / b with a fold pair of the opposite difference
+		for tries := 0; len(win) != len(needle) && tries < 4; tries++ {
+			if len(win) < len(needle) {
+				needle, win = needle+"s", win+"\u017f"
+			} else {
+				needle, win = needle+"\u017f", win+"s"
+			}
+		}
+		pre := string(randFill(rng, rng.IntN(3)))
+		post := pick(rng, "", "!", "z")
+		cases = append(cases, mkCF(pre+win+post, needle), mkCF(win+post, needle))
+	}
+	return cases
+}
+
 func genRandomCF(rng *rand.Rand, n int) (cases []string) {
 	initOrbits()
 	alpha := []rune{'k', 'K', 0x212A, 's', 'S', 0x17F, 'σ', 'ς', 'Σ', 'a', 'A', 'x', 'é', 'É', '€', 'θ', 'ϑ', 'ϴ', 'Θ', 'ǅ', 'ǆ', 'Ǆ', '😀', 'i', 'I', 'İ', 'ı'}
@@ -856,6 +883,7 @@ func genC13(rng *rand.Rand, tier string) (cases []string) {
 		cases = append(cases, genOrbitPositions(rng, twoOrbits, []int{0, 1, 2}, 2)...)
 		cases = append(cases, genMidWindow(rng, 20000)...)
 		cases = append(cases, genWidthCompensated(rng, 30000)...)
+		cases = append(cases, genConfusable(rng, 10000)...)
 		cases = append(cases, genRandomCF(rng, 60000)...)
 		cases = append(cases, genASCIICF(rng, 40000)...)
 		cases = append(cases, genInvalidCF(rng, 40000)...)
@@ -868,6 +896,7 @@ func genC13(rng *rand.Rand, tier string) (cases []string) {
 	cases = append(cases, genOrbitPositions(rng, twoOrbits[:4], []int{rng.IntN(3)}, 1)...)
 	cases = append(cases, genMidWindow(rng, 600)...)
 	cases = append(cases, genWidthCompensated(rng, 1200)...)
+	cases = append(cases, genConfusable(rng, 600)...)
 	cases = append(cases, genRandomCF(rng, 2000)...)
 	cases = append(cases, genASCIICF(rng, 1200)...)
 	cases = append(cases, genInvalidCF(rng, 1200)...)
